@@ -208,6 +208,18 @@ func (x *c03Ctx) tamperMutants(s *chain.Sim, p chain.BlockPlan) []mutant {
 				c.Signatures = append(c.Signatures, c.Signatures[k])
 				return true
 			})
+			add("v1-sig-replaced-by-copy", func(mb *types.Block) bool {
+				// a co-signer's signature replaced by a copy of another signature for the same parent:
+				// the count is right, the number of distinct signers is not
+				c := &mb.Transactions[i]
+				for k2 := range c.Signatures {
+					if k2 != k && c.Signatures[k2].ParentID == c.Signatures[k].ParentID {
+						c.Signatures[k2] = c.Signatures[k]
+						return true
+					}
+				}
+				return false
+			})
 			add("v1-sig-pubkeyindex", func(mb *types.Block) bool {
 				sg := &mb.Transactions[i].Signatures[k]
 				sg.PublicKeyIndex = (sg.PublicKeyIndex + 1 + uint64(rng.Intn(2))) % 3
